@@ -7,6 +7,28 @@ let dump_chain (p : Model.pindex) =
         Printf.sprintf "%d:%d:%d:%d:%d" (i sl.Model.sl_h) (i sl.Model.sl_seg) (i sl.Model.sl_ks) (i sl.Model.sl_vs) (i sl.Model.sl_off)) bucket)) chain)))
     p.Model.px_chains
 
+(* the physical index: the same chain dump (read off the bucket files by following the offsets), and
+   the physical facts: pointers, free list, byte images of main.pix and overflow.pix *)
+let dump_phys_chains (p : Model.phys) =
+  let i = Driver.int_of_n in
+  Printf.printf "lvl %d %d %d %d\n" (i p.Model.ph_level) (i p.Model.ph_split) (i p.Model.ph_nbuckets) (i p.Model.ph_nkeys);
+  for b = 0 to i p.Model.ph_nbuckets - 1 do
+    match Model.ph_chain p (Driver.n_of_int b) with
+    | None -> Printf.printf "chain %d WALK-FAILED\n" b
+    | Some chain ->
+      Printf.printf "chain %d %s\n" b (String.concat " | " (List.map (fun bucket ->
+        String.concat "," (List.map (fun (sl : Model.slot) ->
+          Printf.sprintf "%d:%d:%d:%d:%d" (i sl.Model.sl_h) (i sl.Model.sl_seg) (i sl.Model.sl_ks) (i sl.Model.sl_vs) (i sl.Model.sl_off)) bucket)) chain))
+  done
+
+let dump_phys (p : Model.phys) =
+  let i = Driver.int_of_n in
+  let img bs = let s = Driver.string_of_bytes bs in Printf.sprintf "%d:%s" (String.length s) (Digest.to_hex (Digest.string s)) in
+  Printf.printf "phys %d %d %d %d free=%s main=%s over=%s\n"
+    (i p.Model.ph_level) (i p.Model.ph_split) (i p.Model.ph_nbuckets) (i p.Model.ph_nkeys)
+    (String.concat "," (List.map (fun o -> string_of_int (i o)) p.Model.ph_free))
+    (img (Model.ph_main_bytes p)) (img (Model.ph_over_bytes p))
+
 let () =
   let which = if Array.length Sys.argv > 1 then Sys.argv.(1) else "flat" in
   let ic = if Array.length Sys.argv > 2 then open_in Sys.argv.(2) else stdin in
@@ -14,4 +36,8 @@ let () =
   | "flat" -> Driver.run Model.flat_ops (fun _ -> print_string "flat index\n")
                 (fun p s -> Some (Model.inv_b p s)) ic
   | "chain" -> Driver.run Model.chain_ops dump_chain (fun _ _ -> None) ic
+  | "phys" ->
+      Driver.dump_phys_hook := (fun o -> dump_phys (Obj.obj o));
+      Driver.run Model.phys_ops dump_phys_chains
+        (fun _ s -> match s.Model.s_mem with Some m -> Some (Model.phys_inv_b m.Model.m_idx) | None -> None) ic
   | _ -> prerr_endline "unknown index"; exit 2
